@@ -28,9 +28,9 @@ INITS = [F(0), F(-2001, 2), F(250)]
 
 def bound(tier, seed):
     return dict(
-        changes=dict(quick="2..3", thorough="2..4")[tier],
-        grid=dict(quick="half-beat, 16 beats", thorough="quarter-beat, 16 beats (n<=3); half-beat (n=4)")[tier],
-        metronomes=[4, 3],
+        changes=dict(quick="2..3", thorough="2..5")[tier],
+        grid=dict(quick="half-beat, 16 beats", thorough="quarter-beat, 16 beats (n<=3); half-beat 12 beats and quarter-beat 8 beats (n=4); half-beat 12 beats (n=5)")[tier],
+        metronomes=[4, 3] if tier == "quick" else [4, 3, 5, 7],
         bpms=[str(b) for b in BPMS] + (["173.5"] if tier == "thorough" else []),
         eps_alphabet=[str(e) for e in EPS],
         entry_points=["reseat_bpm_changes_snap", "from_bpm_changes_snap(reseat=True)", "TimingMap.reseat()"],
@@ -41,7 +41,7 @@ def lists(tier):
     out = []
     bp = BPMS + ([F(347, 2)] if tier == "thorough" else [])
     step = F(1, 4) if tier == "thorough" else F(1, 2)
-    for m in (4, 3):
+    for m in (4, 3) if tier == "quick" else (4, 3, 5, 7):
         grid = [step * k for k in range(1, int(16 / step) + 1)]
         for pos in grid:
             for b0, b1 in itertools.product(bp, repeat=2):
@@ -55,6 +55,12 @@ def lists(tier):
             gh = [F(k, 2) for k in range(1, 25)]
             for ps in itertools.combinations(gh, 3):
                 out.append(("grid", m, [(bp[0], F(0)), (bp[1], ps[0]), (bp[2], ps[1]), (bp[3], ps[2])]))
+            # four changes after the first on the quarter-beat grid of the first 8 beats; five on the half-beat grid of 12 beats
+            gq = [F(k, 4) for k in range(1, 33)]
+            for ps in itertools.combinations(gq, 3):
+                out.append(("grid", m, [(bp[1], F(0)), (bp[3], ps[0]), (bp[0], ps[1]), (bp[2], ps[2])]))
+            for ps in itertools.combinations(gh, 4):
+                out.append(("grid", m, [(bp[0], F(0)), (bp[1], ps[0]), (bp[2], ps[1]), (bp[3], ps[2]), (bp[1], ps[3])]))
         # epsilon alphabet: a change just after a measure line / a beat line of the running segment
         for k in (0, 1, 4, 5, 8) if m == 4 else (0, 1, 3, 4, 6):
             for e in EPS:
